@@ -4,6 +4,7 @@ import (
 	"fmt"
 	"log"
 	"path/filepath"
+	"runtime"
 	"strings"
 	"time"
 
@@ -26,8 +27,9 @@ type Case struct {
 	P         int      `json:"producers"`
 	N         int      `json:"messages_per_producer"`
 	Seed      int64    `json:"seed"`
-	Members   []string `json:"members,omitempty"` // composite: initial recording members
-	Appends   []string `json:"appends,omitempty"` // composite: members appended while producers run
+	Members   []string `json:"members,omitempty"`              // composite: initial recording members
+	Appends   []string `json:"appends,omitempty"`              // composite: members appended while producers run
+	Shared    string   `json:"shared_slice_history,omitempty"` // composite built from a caller slice with spare capacity: "caller-append" | "second-composite"
 	Ring      int      `json:"ring,omitempty"`
 	Slow      bool     `json:"slow_sink,omitempty"`
 	PollUS    int      `json:"poll_us,omitempty"`
@@ -39,8 +41,8 @@ type Case struct {
 }
 
 func (c Case) canonical() string {
-	return fmt.Sprintf("%s rep=%d P=%d N=%d members=%v appends=%v ring=%d slow=%v poll=%dus pace=%dus/%d setsrc=%v procs=%d",
-		c.Ctor, c.Rep, c.P, c.N, c.Members, c.Appends, c.Ring, c.Slow, c.PollUS, c.PaceUS, c.PaceEvery, c.SetSrc, c.Procs)
+	return fmt.Sprintf("%s%s rep=%d P=%d N=%d members=%v appends=%v ring=%d slow=%v poll=%dus pace=%dus/%d setsrc=%v procs=%d",
+		c.Ctor, map[bool]string{true: " shared=" + c.Shared, false: ""}[c.Shared != ""], c.Rep, c.P, c.N, c.Members, c.Appends, c.Ring, c.Slow, c.PollUS, c.PaceUS, c.PaceEvery, c.SetSrc, c.Procs)
 }
 
 // group is a set of sinks which together must hold every message once (a logger's own sink(s), or one
@@ -49,8 +51,9 @@ type group struct {
 	name      string
 	kind      string // implementation class of the sink (part of a violation's signature)
 	sinks     []sinkReader
-	secondary bool // an additional sink nobody promised (e.g. stderr copy of NewFileLogger): multiplicity is calibrated only
-	appendBit int  // -1: present from the start; k: appended while running, completeness judged only for messages begun after Append returned
+	secondary bool             // an additional sink nobody promised (e.g. stderr copy of NewFileLogger): multiplicity is calibrated only
+	from      func(p int) bool // nil: every producer's messages are expected; else only those of producers p with from(p) — the others must be ABSENT (this sink is not a member of the composite they log through)
+	appendBit int              // -1: present from the start; k: appended while running, completeness judged only for messages begun after Append returned
 }
 
 type built struct {
@@ -63,6 +66,8 @@ type built struct {
 	async     bool
 	drop      *dropCounter // async: reported drops; nil => parsed from the std streams
 	asyncRecs []*recSink
+	target    func(p int) logs.Loggers // nil: every producer logs through lg
+	closers   []logs.Loggers
 	appendFns []func() error // composite: the concurrent Append calls (one per Appends entry)
 }
 
@@ -109,6 +114,80 @@ func (c Case) member(kind string, i int) (logs.Loggers, *group, error) {
 		return l, &group{name: name, sinks: []sinkReader{fileReader(name, p)}, appendBit: -1}, err
 	}
 	return nil, nil, fmt.Errorf("unknown member kind %q", kind)
+}
+
+// buildShared replays the history "composite built from a caller's slice which has spare capacity, then both sides
+// append": base := make([]Loggers, n, n+4); c := New...(base...); c.Append(mX); and then either the caller appends a
+// stranger to ITS slice, or a second composite c2 is built from the same base slice and gets its own member.
+// The composite's members are c's business alone: mX must keep receiving every message logged through c, and the
+// stranger (never a member of c) must receive nothing from c.
+func (c Case) buildShared(b *built) error {
+	if len(c.Appends) != 2 {
+		return fmt.Errorf("shared-slice case needs two appended kinds")
+	}
+	n := len(c.Members)
+	base := make([]logs.Loggers, n, n+4)
+	for i, k := range c.Members {
+		l, g, e := c.member(k, i)
+		if e != nil {
+			return e
+		}
+		base[i] = l
+		b.groups = append(b.groups, g)
+	}
+	mk := func(list []logs.Loggers) (logs.IMultipleLoggers, error) {
+		if c.Ctor == "multiple" {
+			return logs.NewMultipleLoggers("lsrc", list...)
+		}
+		return logs.NewCombinedLoggers(list...)
+	}
+	comp, err := mk(base)
+	if err != nil {
+		return err
+	}
+	mX, gX, err := c.member(c.Appends[0], n)
+	if err != nil {
+		return err
+	}
+	gX.name = "appended-member:" + c.Appends[0]
+	if err = comp.Append(mX); err != nil {
+		return err
+	}
+	st, gS, err := c.member(c.Appends[1], n+1)
+	if err != nil {
+		return err
+	}
+	gS.name = "stranger:" + c.Appends[1]
+	switch c.Shared {
+	case "caller-append":
+		base = append(base, st) // the caller goes on using ITS slice
+		gS.from = func(int) bool { return false }
+	case "second-composite":
+		c2, e := mk(base)
+		if e != nil {
+			return e
+		}
+		if e = c2.Append(st); e != nil {
+			return e
+		}
+		// even producers log through c2, all others (and the sequential calibration) through c
+		viaC2 := func(p int) bool { return p >= 1 && p%2 == 0 }
+		b.target = func(p int) logs.Loggers {
+			if viaC2(p) {
+				return c2
+			}
+			return comp
+		}
+		gX.from = func(p int) bool { return !viaC2(p) }
+		gS.from = viaC2
+		b.closers = append(b.closers, c2)
+	default:
+		return fmt.Errorf("unknown shared-slice history %q", c.Shared)
+	}
+	runtime.KeepAlive(base)
+	b.groups = append(b.groups, gX, gS)
+	b.multi, b.lg = comp, comp
+	return nil
 }
 
 var memberKinds = []string{"string", "plainstring", "json", "stdr", "zap", "slog", "fileonly"}
@@ -282,6 +361,10 @@ func (c Case) build() (*built, error) {
 		b.lg = b.multi
 		b.groups = []*group{c.stdGroup()}
 	case "multiple", "combined":
+		if c.Shared != "" {
+			err = c.buildShared(b)
+			break
+		}
 		var ms []logs.Loggers
 		for i, k := range c.Members {
 			l, g, e := c.member(k, i)
